@@ -476,5 +476,103 @@ theorem step_tr {s : Sys} (hs : s.Synced) (hu : s.db.UniqIds) (op : Op)
   · rw [h]; exact (a.rest trivial).2 p hp
   · rw [h, ← hs.1]; exact Chan.Tr.of_grow (Chan.Grow.refl _)
 
+/-! ### the accepted `add` -/
+
+theorem addMessage_spec {s : Sys} (hd : s.disk = s.db) (app mb side : String) (ph bd : Val) (t : Time)
+    (id : Val) :
+    (s.addMessage app mb side ph bd t id).db =
+        (s.db.insMessage ⟨app, mb, side, ph.toText, bd.toText, t, id.toText⟩).touch mb t ∧
+    (s.addMessage app mb side ph bd t id).disk = (s.addMessage app mb side ph bd t id).db ∧
+    (s.addMessage app mb side ph bd t id).snaps =
+      s.snaps ++ [((s.db.insMessage ⟨app, mb, side, ph.toText, bd.toText, t, id.toText⟩).touch mb t, s.udisk)] ∧
+    (s.addMessage app mb side ph bd t id).out = s.out ++ [.commit .chan] ∧
+    (s.addMessage app mb side ph bd t id).conns = s.conns ∧
+    (s.addMessage app mb side ph bd t id).udb = s.udb ∧
+    (s.addMessage app mb side ph bd t id).udisk = s.udisk ∧
+    (s.addMessage app mb side ph bd t id).cfg = s.cfg := by
+  have hne : ¬ ((s.modDb (·.insMessage ⟨app, mb, side, ph.toText, bd.toText, t, id.toText⟩)).modDb
+      (·.touch mb t)).db = ((s.modDb (·.insMessage ⟨app, mb, side, ph.toText, bd.toText, t, id.toText⟩)).modDb
+      (·.touch mb t)).disk := by
+    intro h
+    have := congrArg (fun d => d.messages.length) h
+    simp [hd, Chan.touch, Chan.insMessage] at this
+  unfold Sys.addMessage Sys.commit
+  rw [if_neg hne]
+  simp [Sys.modDb]
+
+/-- the state after an accepted `add` -/
+theorem onMessage_add_spec {s : Sys} {x : Conn} {c : Nat} {t : Time} {id : Val} {app mb : String}
+    {ph bd : Val} (hs : s.Synced) (hx : s.findConn c = some x) (ha : x.app = some app)
+    (hm : x.mailbox = some mb) :
+    let s' := s.onMessage c t id (.add (some ph) (some bd))
+    let d' := (s.db.insMessage ⟨app, mb, x.side.getD "", ph.toText, bd.toText, t, id.toText⟩).touch mb t
+    s'.db = d' ∧ s'.disk = d' ∧ s'.snaps = s.snaps ++ [(d', s.udisk)] ∧ s'.conns = s.conns ∧
+    s'.udb = s.udb ∧ s'.udisk = s.udisk ∧ s'.cfg = s.cfg ∧
+    s'.out = s.out ++ [.frame c (.ack id) true, .commit .chan] ++
+      (s.listeners app mb).map (fun c' => .frame c' (.message (x.side.getD "") ph bd t id) true) := by
+  intro s' d'
+  have e : s' = _ := onMessage_add (t := t) (id := id) (ph := ph) (bd := bd) hx ha hm
+  obtain ⟨a1, a2, a3, a4, a5, a6, a7, a8⟩ := addMessage_spec (s := s.send c (.ack id)) hs.1.symm app mb
+    (x.side.getD "") ph bd t id
+  obtain ⟨f1, f2, f3, f4, f5, f6, f7, f8, f9⟩ := foldl_send_spec (fun c' => c')
+    (fun _ => Frame.message (x.side.getD "") ph bd t id)
+    (((s.send c (.ack id)).addMessage app mb (x.side.getD "") ph bd t id).listeners app mb)
+    ((s.send c (.ack id)).addMessage app mb (x.side.getD "") ph bd t id)
+  have hsy : ((s.send c (.ack id)).addMessage app mb (x.side.getD "") ph bd t id).synced = true := by
+    rw [synced_iff]
+    exact ⟨a2.symm, by rw [a6, a7]; exact hs.2⟩
+  have hsy0 : s.synced = true := (synced_iff s).2 hs
+  have hl : ((s.send c (.ack id)).addMessage app mb (x.side.getD "") ph bd t id).listeners app mb =
+      s.listeners app mb := listeners_congr a5 app mb
+  rw [e]
+  unfold Sys.broadcast
+  refine ⟨f1.trans a1, f2.trans (a2.trans a1), f5.trans a3, f6.trans a5, f3.trans a6, f4.trans a7,
+    f7.trans a8, ?_⟩
+  rw [f9, a4, hsy, hl]
+  simp [Sys.send, Sys.emit, hsy0]
+
+/-- **an accepted `add` appends exactly its row** (crash-free, or crash after the commit);
+    a crash before the first commit leaves the database as it was -/
+theorem step_add {s : Sys} (hs : s.Synced) (op : Op) {r : Message} (h : addRowOf s op.plain = some r) :
+    ((∃ op', op = .crashIn 0 op') ∧ (s.step op).db = s.db) ∨
+    ((¬ ∃ op', op = .crashIn 0 op') ∧ (s.step op).db = (s.db.insMessage r).touch r.mailbox r.rx) := by
+  -- the executed operation
+  have key : ∀ op1, addRowOf s op1 = some r →
+      let s1 := ({ s with out := [], snaps := [] } : Sys).stepPlain op1
+      s1.db = (s.db.insMessage r).touch r.mailbox r.rx ∧ s1.disk = s1.db ∧
+        s1.snaps = [((s.db.insMessage r).touch r.mailbox r.rx, s.udisk)] := by
+    intro op1 h1
+    unfold addRowOf at h1
+    split at h1
+    · rename_i c t id ph bd
+      split at h1
+      · rename_i x hx
+        split at h1
+        · rename_i a m ha hm
+          cases h1
+          have hs0 : ({ s with out := [], snaps := [] } : Sys).Synced := hs
+          obtain ⟨b1, b2, b3, _⟩ := onMessage_add_spec (t := t) (id := id) (ph := ph) (bd := bd) hs0
+            (show ({ s with out := [], snaps := [] } : Sys).findConn c = some x from hx) ha hm
+          exact ⟨b1, b2.trans b1.symm, by simpa [Sys.stepPlain] using b3⟩
+        · cases h1
+      · cases h1
+    · cases h1
+  cases op with
+  | crashIn k op' =>
+    obtain ⟨k1, k2, k3⟩ := key op' h
+    cases k with
+    | zero => exact .inl ⟨⟨op', rfl⟩, by simp [Sys.step, Sys.crashTo, hs.1]⟩
+    | succ k =>
+      refine .inr ⟨by simp, ?_⟩
+      simp only [Sys.step]
+      cases k with
+      | zero => simp [k3, Sys.crashTo]
+      | succ k => simp [k3, Sys.crashTo, k2, k1]
+  | connect c => exact .inr ⟨by simp, (key _ h).1⟩
+  | recv c t id cmd => exact .inr ⟨by simp, (key _ h).1⟩
+  | drop c => exact .inr ⟨by simp, (key _ h).1⟩
+  | sweep n f => exact .inr ⟨by simp, (key _ h).1⟩
+  | restart t => exact .inr ⟨by simp, (key _ h).1⟩
+
 end Sys
 end Wormhole
